@@ -708,3 +708,174 @@ def vc_struct_copy():
 
 T.group("struct_copy", vc_struct_copy, [(T.STRUCT, "Struct._to_buffer"), (T.STRUCT, "MetaStruct.__new__.<locals>._inspect_args"), (T.STRUCT, "Struct.__contains__"),
                                        (T.STRUCT, "Struct.__getitem__"), (T.STRUCT, "Field.value_from_args")], ["C09", "C03"])
+
+
+# ------------------------------------------------------------------------------------------------ Array._to_buffer, dynamically sized items
+class OffsetsTable:
+    """info.offsets (an int64 ndarray in index space): offsets[idx] is a symbolic function of the index; its transpose into memory
+    order is what _to_buffer stores.  Only OFF(idx) and the table's size are observed."""
+
+    def __init__(self, rank, n_items):
+        self.rank, self.n = rank, n_items
+        self.OFF = z3.Function(fresh_name("OFF"), *([z3.IntSort()] * rank), z3.IntSort())
+        self.transposed_by = None
+
+    def getitem(self, interp, st, i, node):
+        idx = i if isinstance(i, tuple) else (i,)
+        return self.OFF(*[XB.to_z3(x) for x in idx])
+
+    def getattr(self, interp, st, attr, node):
+        if attr == "size":
+            yield st, self.n
+        elif attr == "transpose":
+            def mk(i, s, a, k, n):
+                t = OffsetsTable.__new__(OffsetsTable)
+                t.rank, t.n, t.OFF = self.rank, self.n, self.OFF
+                t.transposed_by = tuple(int(x) for x in i.concrete_items(s, a[0]))
+                return t
+            yield st, XB._M(mk)
+        else:
+            raise Unsupported(f"offsets.{attr}")
+
+
+def vc_array_writer_dyn():
+    """Array._to_buffer for dynamically sized items (generic sequence path), given an Info with ArrayInfoInv for dynamic items
+    (every item extent [OFF(idx), OFF(idx)+size(idx)) lies behind the offset table and inside the object): the offset table is
+    stored transposed into memory order directly after the header; item idx is written at o + OFF(idx) with its own Info; the
+    table and the header are not overwritten by the items; nothing outside the object changes."""
+    from contracts import capi as K
+
+    obs = []
+    its = []
+    con = T._contract(ARR, "Array._to_buffer", [])
+    for rank, mask in K.array_masks():
+        for order in T.perms(rank):
+            lab = f"{'x'.join('N' if m else 's' for m in mask)}:order{''.join(map(str, order))}"
+            it = T.new_interp()
+            its.append(it)
+            it.class_home.update({"Array": ARR, "NumpyScalar": "xobjects/scalar.py"})
+            i64 = T.int64_scalar()
+            it.extern_names = {"Int64": i64}
+            XB.install_int64(it, i64)
+            st0 = State()
+            cls = T.array_class(st0, rank, mask, False, order)
+            sp = cls.spec
+            D, ndyn = sp["D"], sp["ndyn"]
+            tc = T.TypeContractObj("Item", None, st0)
+            item = tc.as_symobj()
+            item.absent = {"_dtype", "_update"}
+            cls.attrs["_itemtype"] = item
+            shape = [sp["dims"][k] if not mask[k] else fresh_int(f"n{k}") for k in range(rank)]
+            n_items = T.prod(shape)
+            strides = T.doc_strides(shape, order, 8)
+            size = fresh_int("size")
+            table = OffsetsTable(rank, n_items)
+            isz = z3.Function(fresh_name("ISZ"), *([z3.IntSort()] * rank), z3.IntSort())  # size of item idx (its own Info.size)
+
+            class Extra:
+                def getattr(self, interp, st, attr, node):
+                    if attr == "get":
+                        def mk(i, s, a, k, n):
+                            idx = a[0] if isinstance(a[0], tuple) else (a[0],)
+                            o_ = SymObj("Info", {"size": isz(*[XB.to_z3(x) for x in idx])})
+                            o_.closed = True
+                            return o_
+                        yield st, XB._M(mk)
+                        return
+                    raise Unsupported(f"extra.{attr}")
+            buf = XB.XBuf("buf")
+            o = fresh_int("offset")
+            info = SymObj("Info", {"size": size, "shape": tuple(shape), "strides": tuple(strides), "order": PList(list(order)), "value": AbsValue(),
+                                   "items": n_items, "offsets": table, "extra": Extra()})
+            info.closed = True
+            qs = [z3.Int(f"q{k}") for k in range(rank)]
+            inr_q = z3.And(*[z3.And(0 <= q, q < s) for q, s in zip(qs, shape)])
+            pre = list(st0.pc) + [T.SLOT_AX, o >= 0, buf.cap < 2 ** 62, o + size <= buf.cap, size < 2 ** 62, D + 8 * n_items <= size] + [s >= 0 for s in shape]
+            pre += [s < 2 ** 62 for s in shape] + [s < 2 ** 62 for s in strides]
+            # ArrayInfoInv (dynamic items): every item extent lies behind the offset table and inside the object
+            pre += [z3.ForAll(qs, z3.Implies(inr_q, z3.And(table.OFF(*qs) >= D + 8 * n_items, isz(*qs) >= 8, table.OFF(*qs) + isz(*qs) <= size)))]
+            m0 = buf.mem
+            state_box = {}
+
+            def ov_arr_to(i, st, f, a, k, n, table=table, lab=lab, n_items=n_items, D=D):
+                bufv, at, ws = a
+                if isinstance(ws, OffsetsTable):
+                    # contract of Int64._array_to_buffer for an int64 ndarray: its C-order bytes, i.e. word j holds the j-th element in C order of
+                    # the (transposed) array -- here element idx of the table lands at position mem_pos(idx) because it was transposed by `order`
+                    b = i._relocate(st, bufv)
+                    i.oblige(st, "pre@call", f"offset_table.in_bounds[{lab}]", b.in_range(at, 8 * n_items), getattr(n, "lineno", None))
+                    i.oblige(st, "post", f"offset_table_stored_in_memory_order[{lab}]", z3.BoolVal(ws.transposed_by == tuple(order)))
+                    i.oblige(st, "post", f"offset_table_directly_after_header[{lab}]", XB.to_z3(at) == o + D)
+                    new = z3.Array(fresh_name("m"), z3.IntSort(), z3.IntSort())
+                    x = z3.Int(fresh_name("x"))
+                    st.assume(z3.ForAll([x], z3.Implies(z3.Or(x < XB.to_z3(at), x >= XB.to_z3(at) + 8 * n_items), new[x] == b.mem[x]), patterns=[new[x]]))
+                    st.assume(z3.ForAll(qs, z3.Implies(inr_q, XB.W8(new, XB.to_z3(at) + 8 * mem_pos(qs, shape, order)) == table.OFF(*qs))))
+                    b.mem = new
+                    st.table_mem = new
+                    yield st, None
+                    return
+                items = i.concrete_items(st, ws)
+                b = i._relocate(st, bufv)
+                for kk, w_ in enumerate(items):
+                    b.write_word(i, st, XB.to_z3(at) + 8 * kk, w_, n, "Int64._array_to_buffer")
+                yield st, None
+
+            def make_loop(shape=shape, order=order, o=o, lab=lab, size=size):
+                def init(interp, st, k, node):
+                    pass
+
+                def head(interp, st):
+                    b = st.locals["buffer"]
+                    m = z3.Array(fresh_name("mloop"), z3.IntSort(), z3.IntSort())
+                    x = z3.Int(fresh_name("x"))
+                    # frame invariant: outside the object nothing changed; the header and the offset table are as written before the loop
+                    st.assume(z3.ForAll([x], z3.Implies(z3.Or(x < o, x >= o + size), m[x] == m0[x]), patterns=[m[x]]))
+                    tm = getattr(st, "table_mem", None)
+                    if tm is not None:
+                        st.assume(z3.ForAll([x], z3.Implies(z3.And(o <= x, x < o + D + 8 * n_items), m[x] == tm[x]), patterns=[m[x]]))
+                    b.mem = m
+                    return {"tm": tm}
+
+                def alts():
+                    def mk(st):
+                        idx = tuple(fresh_int(f"i{a}") for a in range(len(shape)))
+                        st.assume(z3.And(*[z3.And(0 <= i_, i_ < s_) for i_, s_ in zip(idx, shape)]))
+                        return idx if len(shape) > 1 else idx[0]
+                    yield "index", mk
+
+                def preserve(interp, st, g, label, elem, k, node):
+                    idx = elem if isinstance(elem, tuple) else (elem,)
+                    wr = [r for r in getattr(st, "recorded", []) if r[0] == "write"]
+                    ob = lambda c, gl: interp.oblige(st, f"inv{k}.preserve", f"{c}[{lab}]", gl if not isinstance(gl, bool) else z3.BoolVal(gl), node.lineno)
+                    ob("one_item_written", len(wr) >= 1)
+                    b = interp._relocate(st, st.locals["buffer"])
+                    if wr:
+                        r = wr[-1]
+                        ob("item_written_at_its_table_offset", r[2] == o + table.OFF(*idx))
+                        ob("item_written_with_its_own_size", r[3] == isz(*idx))
+                        ob("item_value_is_value_at_index", r[4] == ("item", elem))
+                    ob("frame_preserved", T.forall_x(lambda x: z3.Implies(z3.Or(x < o, x >= o + size), b.mem[x] == m0[x])))
+                    if g["tm"] is not None:
+                        ob("header_and_offset_table_not_overwritten", T.forall_x(lambda x: z3.Implies(z3.And(o <= x, x < o + D + 8 * n_items), b.mem[x] == g["tm"][x])))
+                return LoopSpec(init, head, alts, preserve)
+            loop = make_loop()
+
+            def ov_iter_index(i, st, f, a, k, n, shape=shape, order=order, loop=loop):
+                yield st, IndexSeq(shape, order, loop)
+            it.overrides[(ARR, "iter_index")] = ov_iter_index
+            it.overrides[("xobjects/scalar.py", "NumpyScalar._array_to_buffer")] = ov_arr_to
+            try:
+                for st, out in it.exec_function(con, {"cls": cls, "buffer": buf, "offset": o, "value": AbsValue(), "info": info}, pre=pre):
+                    if out is not None and out[0] == "raise":
+                        it.oblige(st, "raises", f"never[{lab}]", False, out[2])
+                        continue
+                    b = it._relocate(st, buf)
+                    it.oblige(st, "post", f"frame[{lab}]", T.forall_x(lambda x: z3.Implies(z3.Or(x < o, x >= o + size), b.mem[x] == m0[x])))
+            except Unsupported as e:
+                vc_array_writer_dyn.undecided.append((lab, str(e)[:160]))
+            obs += it.obligations
+    vc_array_writer_dyn.interps = its
+    return obs
+
+
+T.group("array_writer_dynamic_items", vc_array_writer_dyn, [(ARR, "Array._to_buffer")], ["C03", "C05", "C01"])
